@@ -134,6 +134,17 @@ func stringModels(t *tbl) {
 		b, af, f := strings.Cut(str(a[0]), str(a[1]))
 		return absint.Tuple{absint.Str(b), absint.Str(af), absint.Bool(f)}
 	}
+	t.ext["strings.CutPrefix"] = func(ip *absint.Interp, a []absint.Value) absint.Value {
+		af, f := strings.CutPrefix(str(a[0]), str(a[1]))
+		return absint.Tuple{absint.Str(af), absint.Bool(f)}
+	}
+	t.ext["strings.CutSuffix"] = func(ip *absint.Interp, a []absint.Value) absint.Value {
+		b, f := strings.CutSuffix(str(a[0]), str(a[1]))
+		return absint.Tuple{absint.Str(b), absint.Bool(f)}
+	}
+	t.ext["strings.Count"] = func(ip *absint.Interp, a []absint.Value) absint.Value {
+		return absint.Int(int64(strings.Count(str(a[0]), str(a[1]))))
+	}
 	t.ext["strings.Replace"] = func(ip *absint.Interp, a []absint.Value) absint.Value {
 		n, _ := a[3].(absint.Int)
 		return absint.Str(strings.Replace(str(a[0]), str(a[1]), str(a[2]), int(n)))
